@@ -51,6 +51,9 @@ type scenario struct {
 	After      []string `json:"after"`       // after the first false: next | close | cancel
 	Sat        []string `json:"sat"`         // once the pipeline has backed up behind a consumer that is not reading (no goroutine can move): cancel | close
 	HookCancel string   `json:"hook_cancel"` // "point#n": the caller cancels from inside the n-th occurrence of that engine hook (right after a slot or reference was released), with one P, so a goroutine the release woke has not run yet
+	Cause      bool     `json:"cause"`       // the caller's context is cancelled with a cause of its own (context.WithCancelCause)
+	FailPaused bool     `json:"fail_paused"` // the store call held at the pause fails when it is let go (a store that honours the context the caller or Close has cancelled meanwhile)
+	NoSections bool     `json:"no_sections"` // the MetaStore describes every block without a filter section (BloomFilterSize 0): nothing to read, every block survives
 	Queries    int      `json:"queries"`     // multi: concurrent queries
 	Stalled    int      `json:"stalled"`     // multi: how many of them never call Next
 	GateReads  bool     `json:"gate_reads"`
@@ -82,9 +85,10 @@ type qobs struct {
 	CloseRetSeq            int64    `json:"close_ret_seq"`
 	CanceledBeforeDecision bool     `json:"canceled_before_decision"`
 	CancelDuringClose      bool     `json:"cancel_during_close"`
-	ClosedEarly            bool     `json:"closed_early"` // Close was called before the first false
-	Promised               int      `json:"promised"`     // injected failures returned to the engine while the query was live
-	Reported               int      `json:"reported"`     // of those, how many errors.Is finds in Err
+	CancelWhileCloseHeld   bool     `json:"cancel_while_close_held"` // the caller cancelled after Close was called and while a pipeline goroutine was still held: before any decision
+	ClosedEarly            bool     `json:"closed_early"`            // Close was called before the first false
+	Promised               int      `json:"promised"`                // injected failures returned to the engine while the query was live
+	Reported               int      `json:"reported"`                // of those, how many errors.Is finds in Err
 	Injected               int      `json:"injected"`
 	Rows                   []string `json:"-"`
 	Expect                 []string `json:"-"`
@@ -152,30 +156,31 @@ type hstate struct {
 }
 
 type ctl struct {
-	mu        sync.Mutex
-	seq       *atomic.Int64
-	counts    map[string]int // "q|kind" -> n
-	handleQ   map[int64]*hstate
-	order     []int64
-	pauseQ    int
-	pause     string
-	pauseCh   chan struct{}
-	arrived   chan struct{}
-	faultQ    int
-	fault     string
-	faultErr  error
-	faultSeq  int64 // seq at which the injected failure was returned to the engine
-	reached   bool
-	inRead    int
-	inReadMax int
-	inIO      int // reads and OpenFile calls in progress
-	inIOMax   int
-	opens     int
-	gate      bool
-	gateCh    chan struct{}
-	iterOpen  map[int]int
-	activity  atomic.Int64
-	probing   bool
+	mu         sync.Mutex
+	seq        *atomic.Int64
+	counts     map[string]int // "q|kind" -> n
+	handleQ    map[int64]*hstate
+	order      []int64
+	pauseQ     int
+	pause      string
+	pauseCh    chan struct{}
+	arrived    chan struct{}
+	faultQ     int
+	fault      string
+	faultErr   error
+	faultSeq   int64 // seq at which the injected failure was returned to the engine
+	reached    bool
+	inRead     int
+	inReadMax  int
+	failPaused bool
+	inIO       int // reads and OpenFile calls in progress
+	inIOMax    int
+	opens      int
+	gate       bool
+	gateCh     chan struct{}
+	iterOpen   map[int]int
+	activity   atomic.Int64
+	probing    bool
 }
 
 func newCtl(seq *atomic.Int64) *ctl {
@@ -250,6 +255,12 @@ func (c *ctl) Before(op *h.StoreOp) error {
 	c.mu.Unlock()
 	if waitCh != nil {
 		<-waitCh
+		c.mu.Lock()
+		fp := c.failPaused
+		c.mu.Unlock()
+		if fp && err == nil {
+			err = errors.New("verif: store call cut short by the cancellation")
+		}
 	}
 	if gateCh != nil {
 		<-gateCh
@@ -328,6 +339,26 @@ type world struct {
 type slowMeta struct {
 	bs.MetaStore
 	delay time.Duration
+}
+
+// sectionless hands out every block without a filter section, the way metadata written without block filters does.
+type sectionless struct{ bs.MetaStore }
+
+func (m sectionless) GetMaybeFilesForQuery(ctx context.Context, p *bs.QueryPrefilter) iter.Seq2[bs.MaybeFile, error] {
+	return func(yield func(bs.MaybeFile, error) bool) {
+		for mf, err := range m.MetaStore.GetMaybeFilesForQuery(ctx, p) {
+			if err == nil {
+				blocks := append([]bs.DataBlockMetadata(nil), mf.Metadata.DataBlocks...)
+				for i := range blocks {
+					blocks[i].BloomFilterSize = 0
+				}
+				mf.Metadata.DataBlocks = blocks
+			}
+			if !yield(mf, err) {
+				return
+			}
+		}
+	}
 }
 
 func (m slowMeta) GetMaybeFilesForQuery(ctx context.Context, p *bs.QueryPrefilter) iter.Seq2[bs.MaybeFile, error] {
@@ -511,6 +542,9 @@ func finishWorld(w *world, sc scenario) (*world, error) {
 	inner := w.rawMeta
 	if sc.SlowIter > 0 {
 		inner = slowMeta{MetaStore: w.rawMeta, delay: time.Duration(sc.SlowIter) * time.Millisecond}
+	}
+	if sc.NoSections {
+		inner = sectionless{inner}
 	}
 	w.meta = &h.InstrMeta{Inner: inner, C: w.c}
 	w.eng, err = bs.NewBloomSearchEngine(cfgFor(sc.N), w.meta, w.data)
@@ -762,10 +796,17 @@ func runSolo(sc scenario, scratch string, guard *h.StdioGuard) (o obs) {
 	r.o.Expect = w.expect
 	base := context.WithValue(context.Background(), qkey, 1)
 	r.ctx, r.cancel = context.WithCancel(base)
+	if sc.Cause {
+		cctx, cc := context.WithCancelCause(base)
+		r.ctx, r.cancel = cctx, func() { cc(errors.New("caller is shutting down")) }
+	}
 	defer r.cancel()
 	if sc.Pause != "" {
 		c.pauseQ, c.pause, c.pauseCh, c.arrived = 1, sc.Pause, make(chan struct{}), make(chan struct{})
 	}
+	c.mu.Lock()
+	c.failPaused = sc.FailPaused
+	c.mu.Unlock()
 	if sc.Fault != "" {
 		c.faultQ, c.fault, c.faultErr = 1, sc.Fault, fmt.Errorf("verif injected failure %s: %w", sc.Fault, h.ErrInjected)
 		r.o.Injected = 1
@@ -839,12 +880,20 @@ func runSolo(sc scenario, scratch string, guard *h.StdioGuard) (o obs) {
 			c.mu.Unlock()
 		} else {
 			quiesce(c)
+			closeIssued := false
 			for _, a := range sc.Actions {
 				switch a {
 				case "cancel":
 					r.doCancel()
+					if closeIssued {
+						// the held goroutine keeps the pipeline from finishing, so Close cannot have decided anything yet
+						r.mu.Lock()
+						r.o.CancelWhileCloseHeld = true
+						r.mu.Unlock()
+					}
 				case "close", "close2":
 					r.doClose()
+					closeIssued = true
 				}
 				quiesce(c)
 			}
@@ -1274,6 +1323,9 @@ func generate(tier string, seed int64, scratch string, guard *h.StdioGuard) []sc
 		if sc.Engine == "" {
 			sc.Engine = []string{"fresh", "started", "stopped"}[rng.Intn(3)]
 		}
+		if sc.Kind == "solo" && rng.Intn(4) == 0 {
+			sc.Cause = true
+		}
 		out = append(out, sc)
 	}
 	shapes := []scenario{
@@ -1330,6 +1382,15 @@ func generate(tier string, seed int64, scratch string, guard *h.StdioGuard) []sc
 					for _, cons := range []string{"stall", "take:1"} {
 						sc := sh
 						sc.Pause, sc.Actions, sc.Mid, sc.Consumer = p, []string{"close"}, []string{"cancel"}, cons
+						sc.After = []string{"next", "close"}
+						add(sc)
+					}
+				}
+				// the held call itself fails when it is let go after the cancel / Close (a store that honours the context)
+				if k == "open" || k == "read" {
+					for _, as := range [][]string{{"cancel"}, {"close"}} {
+						sc := sh
+						sc.Pause, sc.Actions, sc.FailPaused, sc.Consumer = p, as, true, consumers[(n+si)%3]
 						sc.After = []string{"next", "close"}
 						add(sc)
 					}
@@ -1437,6 +1498,10 @@ func generate(tier string, seed int64, scratch string, guard *h.StdioGuard) []sc
 		{N: 3, Queries: 4, Stalled: 1, Files: 12, Blocks: 1, Rows: 7, Bloom: true, Match: "all"},
 		{N: 3, Queries: 4, Stalled: 0, Files: 3, Blocks: 3, Rows: 70, Bloom: true, Match: "some"},
 		{N: 2, Queries: 2, Stalled: 0, Files: 4, Blocks: 2, Rows: 40, Bloom: false, Match: "all", Meta: "fs"},
+		// bloom queries over files whose blocks carry no filter sections (nothing to open or read in the filter pass, every
+		// block goes on to be scanned): the stalled queries' file workers block in their dispatch
+		{N: 2, Queries: 3, Stalled: 2, Files: 4, Blocks: 12, Rows: 60, Bloom: true, Match: "all", NoSections: true},
+		{N: 1, Queries: 2, Stalled: 1, Files: 3, Blocks: 12, Rows: 60, Bloom: true, Match: "all", NoSections: true},
 	}
 	if tier == "thorough" {
 		multi = append(multi,
